@@ -697,6 +697,8 @@ type VerifHook interface {
 	Lock(m unsafe.Pointer, name string, try func() bool)
 	// Unlocked is called after the real unlock.
 	Unlocked(m unsafe.Pointer)
+	// TryLock is TryLock / TryRLock (shared) of the code under test.
+	TryLock(m unsafe.Pointer, name string, shared bool, try func() bool) bool
 	// RLock / RUnlocked are the read side of a reader/writer lock: readers
 	// exclude writers, not each other.
 	RLock(m unsafe.Pointer, name string, try func() bool)
@@ -740,7 +742,12 @@ func (m *VerifMutex) lockNamed(name func() string) {
 	m.mu.Lock()
 }
 
-func (m *VerifMutex) TryLock() bool { return m.mu.TryLock() }
+func (m *VerifMutex) TryLock() bool {
+	if h := VerifSimHook; h != nil {
+		return h.TryLock(unsafe.Pointer(m), "", false, m.mu.TryLock)
+	}
+	return m.mu.TryLock()
+}
 
 func (m *VerifMutex) Unlock() {
 	m.mu.Unlock()
@@ -783,8 +790,19 @@ func (m *VerifRWMutex) RUnlock() {
 	}
 }
 
-func (m *VerifRWMutex) TryLock() bool  { return m.mu.TryLock() }
-func (m *VerifRWMutex) TryRLock() bool { return m.mu.TryRLock() }
+func (m *VerifRWMutex) TryLock() bool {
+	if h := VerifSimHook; h != nil {
+		return h.TryLock(unsafe.Pointer(m), "", false, m.mu.TryLock)
+	}
+	return m.mu.TryLock()
+}
+
+func (m *VerifRWMutex) TryRLock() bool {
+	if h := VerifSimHook; h != nil {
+		return h.TryLock(unsafe.Pointer(m), "", true, m.mu.TryRLock)
+	}
+	return m.mu.TryRLock()
+}
 
 // verifMapKeys replaces Go's randomised map iteration order by an order the
 // simulator decides (any order is permitted by the language).
